@@ -201,12 +201,17 @@ def execute_large(case):
     def bad(kind, cut, detail, **extra):
         sig = {"kind": kind, "large": True, **extra}
         if core.jkey(sig) not in {core.jkey(f["sig"]) for f in fails}:
-            fails.append({"sig": sig, "detail": f"{case['lines']}-line image, cache file {fname} cut at {cut}/{len(full)}: {detail}", "case": {**case, "cuts": [cut]}})
+            fails.append({"sig": sig, "detail": f"{case['lines']}-line image, {case.get('loc', 'local')} cache file {fname} cut at {cut}/{len(full)}: {detail}", "case": {**case, "cuts": [cut]}})
 
+    loc = case.get("loc", "local")
     for i, cut in enumerate(cuts):
-        for other, data in st["written"].items():
-            (cdir / other).write_bytes(data)
-        (cdir / fname).write_bytes(full[:cut])
+        if loc == "local":
+            for other, data in st["written"].items():
+                (cdir / other).write_bytes(data)
+            (cdir / fname).write_bytes(full[:cut])
+        else:  # the torn document lies next to the image, nothing in the user cache dir
+            env.wipe_cache()
+            prod.put(f"{st['name']}.index", full[:cut])
         n += 1
         try:
             t = prod.open()
@@ -230,6 +235,8 @@ def execute_large(case):
                 bad("cache-not-repaired", cut, f"after create_cache=True a cached open still reads the image ({len(reads)} reads)")
         except Exception as e:
             bad("repair-raises", cut, f"{type(e).__name__}: {str(e)[:100]}", exc=type(e).__name__)
+    if loc != "local":
+        prod.remove(f"{st['name']}.index")
     return {"ok": not fails, "failures": fails, "outcome": "large-ok" if not fails else fails[0]["sig"]["kind"], "nontrivial": True, "n": n}
 
 
@@ -253,8 +260,8 @@ def run(res, tier, seed):
         "for each image of a level 1.1 and a level 1.5 product (documents of ~10 kB / ~7 kB) and each location {user cache, adjacent}:"
         " every byte prefix 0..len through sar_image.open_image; through open_alos2 every prefix (thorough) or every 3rd structural"
         " JSON token +-1, every 32nd byte and the first/last 24 (quick; second image sparser), with the repair + cached-open steps on every 8th (quick) / 4th"
-        " (thorough); pairs torn+complete and torn+torn (both locations) at token positions; plus a 6000-line image whose index is > 1 MiB:"
-        " whatever file create_cache leaves is cut at every 4 KiB block boundary +-1 (thorough) / every 64 KiB (quick). A batch is non-trivial if it contains a proper prefix."
+        " (thorough); pairs torn+complete and torn+torn (both locations) at token positions; plus an 18000-line image whose index is > 5 MiB, cut at every power of two 2^12..2^22,"
+        " every MiB multiple and 5 MiB, in both locations (thorough: +-1 and every 64 KiB +-1, and a 6000-line image at every 4 KiB boundary +-1). A batch is non-trivial if it contains a proper prefix."
     )
     res.assumptions = ["post-crash states of one in-place write_text = byte prefixes of the document (single file, append after truncate)", "a writer still running exposes the same prefixes to a reader", "real SIGKILLs are sampling and are not used"]
     # document lengths: ask one worker
@@ -291,16 +298,22 @@ def run(res, tier, seed):
             order += 1
             n_states += out["n"]
     # large index (> 1 MiB): crash points at every 4096-byte block boundary +-1 (thorough) / every 64 KiB (quick)
-    LINES = 6000
+    # large index (> 5 MiB, an 18000-line image): crash points at every power of two 2^12..2^22 and every MiB multiple, +-1 (what a
+    # block-wise copy or read leaves / mishandles), in both locations; thorough adds a 6000-line image cut at every 4 KiB boundary +-1
+    LINES = 18000
     size = None
     for idx, case, out in core.pool_map(__name__, "execute_large", [{"lines": LINES, "cuts": "info"}], procs=1):
         size = out["size"]
     if size:
-        step = 4096 if tier == "thorough" else 65536
-        pts = sorted({p + d for p in range(0, size + 1, step) for d in (-1, 0, 1) if 0 <= p + d <= size} | set(range(0, 12)) | set(range(size - 12, size + 1)))
-        big = [{"fn": "execute_large", "lines": LINES, "cuts": c, "steps_every": 8} for c in chunks(pts, 6 if tier == "quick" else 24)]
+        grid = {2**j for j in range(12, 23)} | {k * 2**20 for k in range(1, 9)} | {5 * 2**20, 3 * 2**19}
+        if tier == "thorough":
+            grid |= set(range(0, size + 1, 65536))
+        pts = sorted({p + d for p in grid for d in ((-1, 0, 1) if tier == "thorough" else (0,)) if 0 <= p + d <= size} | {0, 1, size - 1, size})
+        big = [{"fn": "execute_large", "lines": LINES, "cuts": c, "steps_every": 8, "loc": loc} for loc in ("local", "adjacent") for c in chunks(pts, 3 if tier == "quick" else 8)]
+        if tier == "thorough":
+            big += [{"fn": "execute_large", "lines": 6000, "cuts": c, "steps_every": 8} for c in chunks(sorted({p + d for p in range(0, 1_800_000, 4096) for d in (-1, 0, 1) if p + d >= 0}), 24)]
         for idx, case, out in core.pool_map(__name__, "execute_large", big, chunksize=1):
-            res.record({"fn": "execute_large", "lines": LINES, "cuts": [case["cuts"][0], "..", case["cuts"][-1]]}, out, order=order)
+            res.record({"fn": "execute_large", "lines": case["lines"], "loc": case.get("loc", "local"), "cuts": [case["cuts"][0], "..", case["cuts"][-1]]}, out, order=order)
             order += 1
             n_states += out["n"]
         res.extra["large_index_bytes"] = size
